@@ -13,6 +13,8 @@
      a second definition of a name in a file .................. CollisionDef                    at the LATER statement
      `use p [as n]`: the file has no namespace ................ NoNamespace                     at the name n
                      n is already defined differently ......... CollisionUse                    at the statement
+                        (a `use` line that tree() appended from the std preamble: at the user's definition, /repo 2646957;
+                         the model runs on user-written modules only)
      `from p use x [as y]`: the file has no namespace .......... NoNamespace                     at the statement
                             x is not in the namespace ......... CannotFind                      at x
                             y (or x) already defined .......... CollisionFrom                   at y (or x)
